@@ -306,9 +306,10 @@ def run_impl(prop, jobs_in, tag="impl", max_answers=60, timeout_ms=4000, fresh_e
     for j in jobs_in:
         r = res.get(j["id"])
         nq = len(j["queries"])
-        if r is not None and (r.get("hang") or r.get("crash") == 97):
-            # watchdog exit: this job (or the one before it in the shard) did not react to the interrupt -- not run / not a result
-            out[j["id"]] = [{p: ("drop", "hang") for p in paths} for _ in range(nq)]
+        if r is not None and (r.get("hang") or r.get("crash") in (97, 101)):
+            # 97: watchdog exit -- this job (or the one before it in the shard) did not react to the interrupt;
+            # 101: the harness could not build a new machine after a caught panic (poisoned global state). Not a result of this job.
+            out[j["id"]] = [{p: ("drop", "hang" if r.get("crash") != 101 else "harness exit after an earlier panic") for p in paths} for _ in range(nq)]
             continue
         if r is not None and "crash" in r:
             # the vrun process died (segmentation fault / abort) while running this job
